@@ -9,6 +9,7 @@ import Wheatley.Lemmas.Assoc
 import Wheatley.Lemmas.BotInv
 import Wheatley.Model.Page
 import Wheatley.Model.World
+import Wheatley.Lemmas.Lift
 namespace Wheatley.C20
 
 /-- The view after a history of server messages (oldest first), starting from the empty view. -/
@@ -319,6 +320,153 @@ theorem extract_fails_without_marker (html : List Char) (h : Page.findSub Page.m
 `c_request_global_state`, before anything else happens. -/
 theorem startup_emissions {K : Type} [Num K] (now : K) (bot : Bot) (rh : Rh K) (tape : List (K × K)) (lt : Option K) :
     ((World.init now bot rh tape lt).obs.reverse.map (·.out)) = [Out.join, Out.requestState] := rfl
+
+/-! ### System level: the view in every state of every run -/
+
+section System
+variable {K : Type} [Num K]
+
+/-- The messages among the events (a woken Look To handler is not a message). -/
+def msgsOf (events : List (K × Ev)) : List Msg :=
+  events.filterMap (fun ev => match ev.2 with | .msg m => some m | .resume => none)
+
+theorem msgsOf_append (a b : List (K × Ev)) : msgsOf (a ++ b) = msgsOf a ++ msgsOf b := by
+  unfold msgsOf; exact List.filterMap_append
+
+theorem tickEnd_tower (b : Bot) (bell : Nat) (uc : Bool) : (b.tickEnd bell uc).1.tower = b.tower := by
+  unfold Bot.tickEnd
+  simp only []
+  split
+  · exact startNextRow_tower _ false
+  · rfl
+
+/-- Nothing the Bot does on its own - `tick`, `start_next_row`, the rest of a Look To - touches the view. -/
+theorem keepsView (t : Tower) : BotInvariant (fun b => b.tower = t) (fun _ => False) :=
+  { arm := fun b h => (startNextRow_tower b.armLookTo true).trans h
+    tick := fun b bell uc h => (tickEnd_tower b bell uc).trans h
+    msg := fun _ _ he _ => he.elim }
+
+/-- The main thread never changes the view. -/
+theorem mainStep_tower (wt : K → K) (w : World K) : (w.mainStep wt).1.bot.tower = w.bot.tower :=
+  (keepsView w.bot.tower).mainStep wt w rfl
+
+/-- One step of the socket thread changes the view exactly as the message's handler does. -/
+theorem deliver_tower (wt : K → K) (w : World K) (e : Ev) :
+    (World.deliver wt w e).bot.tower = (match e with | .msg m => w.bot.tower.apply m | .resume => w.bot.tower) := by
+  cases e with
+  | resume =>
+    unfold World.deliver
+    simp only []
+    split
+    · rename_i s _
+      unfold World.lookToResume World.lookToRest
+      simp only []
+      have hin : (World.lookToInner ({ w with suspended := none } : World K) s).bot = w.bot := by
+        unfold World.lookToInner
+        split
+        · exact (withReg_pc_obs ({ w with suspended := none } : World K) _).2.2
+        · rfl
+      generalize World.lookToInner ({ w with suspended := none } : World K) s = wi at hin
+      have hR : (wi.bot.armLookTo.startNextRow true).1.tower = w.bot.tower := by
+        rw [startNextRow_tower]; show wi.bot.tower = _; rw [hin]
+      split
+      · dsimp only; rw [(foldl_applyOut_bot_crashed wt _ _ _).1]; exact hR
+      · rw [(foldl_applyOut_bot_crashed wt _ _ _).1]; exact hR
+    · rfl
+  | msg m =>
+    unfold World.deliver
+    simp only []
+    split
+    · rename_i s wr hsus
+      -- only a call suspends, and a call leaves the view alone
+      unfold World.lookToBegin
+      show w.bot.tower = w.bot.tower.apply m
+      unfold World.lookToSuspends at hsus
+      cases m with
+      | call c => rfl
+      | _ => cases hsus
+    · unfold World.deliverMsg
+      simp only []
+      have hm := bot_keeps_view w.bot m
+      split
+      · dsimp only; rw [(foldl_applyOut_bot_crashed wt _ _ _).1]; exact hm
+      · rw [(foldl_applyOut_bot_crashed wt _ _ _).1]; exact hm
+
+theorem sleep_go_tower (wt : K → K) (limit : K) :
+    ∀ (events : List (K × Ev)) (w : World K),
+      ∃ k, (World.sleep.go wt limit w events).2 = events.drop k ∧
+        (World.sleep.go wt limit w events).1.bot.tower = (msgsOf (events.take k)).foldl Tower.apply w.bot.tower := by
+  intro events
+  induction events with
+  | nil => intro w; exact ⟨0, rfl, rfl⟩
+  | cons ev rest ih =>
+    intro w
+    obtain ⟨t, e⟩ := ev
+    unfold World.sleep.go
+    split
+    · obtain ⟨k, h1, h2⟩ := ih (World.deliver wt (if w.now < t then { w with now := t } else w) e)
+      refine ⟨k + 1, h1, ?_⟩
+      rw [h2, deliver_tower]
+      have hb : (if w.now < t then ({ w with now := t } : World K) else w).bot = w.bot := by split <;> rfl
+      rw [hb]
+      cases e with
+      | msg m => simp [msgsOf, List.take_succ_cons]
+      | resume => simp [msgsOf, List.take_succ_cons]
+    · exact ⟨0, rfl, rfl⟩
+
+theorem sleep_tower (wt : K → K) (endTime : K) (w : World K) (d : K) (events : List (K × Ev)) :
+    ∃ k, (World.sleep wt endTime w d events).2.1 = events.drop k ∧
+      (World.sleep wt endTime w d events).1.bot.tower = (msgsOf (events.take k)).foldl Tower.apply w.bot.tower := by
+  unfold World.sleep
+  simp only []
+  split
+  · exact sleep_go_tower wt endTime events w
+  · obtain ⟨k, h1, h2⟩ := sleep_go_tower wt (w.now + d) events w
+    exact ⟨k, h1, h2⟩
+
+/-- **The view is the fold of the history, in every state of every run.**  Whatever the main thread is doing and
+however far the run has got (`fuel`), the Bot's picture of the tower is exactly what `RingingRoomTower`'s handlers
+make of the messages delivered so far - a prefix of the event list, in order - starting from the picture it had:
+no step of the main thread, no callback of the Bot, no Look To in progress ever alters, delays or drops an update. -/
+theorem view_is_the_fold_of_the_history (wt : K → K) (endTime : K) :
+    ∀ (fuel : Nat) (w : World K) (events : List (K × Ev)),
+      ∃ k, (World.run wt endTime fuel w events).1.bot.tower =
+        (msgsOf (events.take k)).foldl Tower.apply w.bot.tower := by
+  intro fuel
+  induction fuel with
+  | zero => intro w events; exact ⟨0, rfl⟩
+  | succ fuel ih =>
+    intro w events
+    unfold World.run
+    have hm := mainStep_tower wt w
+    split
+    · rename_i w1 heq; rw [heq] at hm; exact ⟨0, hm⟩
+    · rename_i w1 heq
+      rw [heq] at hm
+      obtain ⟨k, hk⟩ := ih w1 events
+      exact ⟨k, by rw [hk, hm]⟩
+    · rename_i w1 d heq
+      rw [heq] at hm
+      obtain ⟨k1, h1, h2⟩ := sleep_tower wt endTime w1 d events
+      simp only []
+      split
+      · exact ⟨k1, by rw [h2, hm]⟩
+      · obtain ⟨k2, hk2⟩ := ih (World.sleep wt endTime w1 d events).1 (World.sleep wt endTime w1 d events).2.1
+        refine ⟨k1 + k2, ?_⟩
+        rw [hk2, h2, hm, h1, List.take_add, msgsOf_append, List.foldl_append]
+
+/-- ... so, started from the empty view, it is `view` of the messages delivered so far, and everything
+`tower_refines_spec` says of `view` - size, strokes, holders, names - holds of the tower the Bot consults at that
+moment. -/
+theorem view_matches_spec_throughout (wt : K → K) (endTime : K) (fuel : Nat) (w : World K) (events : List (K × Ev))
+    (h0 : w.bot.tower = Tower.empty) :
+    ∃ k, Matches (World.run wt endTime fuel w events).1.bot.tower (msgsOf (events.take k)).reverse := by
+  obtain ⟨k, hk⟩ := view_is_the_fold_of_the_history wt endTime fuel w events
+  refine ⟨k, ?_⟩
+  rw [hk, h0]
+  exact tower_refines_spec _
+
+end System
 
 /-! Non-vacuity: a user is announced, takes bell 3, the tower shrinks to 2 bells. -/
 example :
